@@ -287,7 +287,8 @@ class Interp:
         self.unknown_forks = 0
         self.nomerge = set()
         self.havocs = []
-        self.assume_pos_cbrt = True
+        self.stubs = {}             # function/method name -> callable(I, this, args) replacing the body
+        self.check_lib_pre = True   # check library preconditions (poisson mean > 0) at every draw
 
     # ------------------------------------------------------------------ solver plumbing
     def fresh(self, base, sort="real"):
@@ -676,7 +677,11 @@ class Interp:
                 v = a.get() if hasattr(a, "get") else a
                 frame[p["id"]] = Box(v.copy() if isinstance(v, Vec) and not v.raw else v, p.get("name", ""))
         if self.trace_calls:
-            self.calltrace.append((self.depth, fdecl.get("name", "?")))
+            self.calltrace.append((self.depth, fdecl.get("name", "?"),
+                                   [(a.get() if hasattr(a, "get") else a) for a in args if not isinstance(a, (Vec, Ptr))]))
+        stub = self.stubs.get(fdecl.get("name"))
+        if stub is not None:
+            return stub(self, this, args)
         saved = (self.frame, self.this)
         self.frame, self.this = frame, this
         self.depth += 1
@@ -813,13 +818,55 @@ class Interp:
             if not cond and it > self.unwind * 4 and self.pc:
                 raise UnwindBound("unwinding bound reached in unconditional loop at " + self.where(n))
             try:
-                self.stmt(body)
+                if body.get("kind") == "CompoundStmt":
+                    self._guarded(body.get("inner", []))
+                else:
+                    self.stmt(body)
             except BreakEx:
                 break
             except ContinueEx:
                 pass
             if inc:
                 self.rvalue(inc)
+
+    @staticmethod
+    def _is_continue_guard(c):
+        if c.get("kind") != "IfStmt" or len(c.get("inner", [])) != 2:
+            return False
+        t = c["inner"][1]
+        if t.get("kind") == "CompoundStmt" and len(t.get("inner", [])) == 1:
+            t = t["inner"][0]
+        return t.get("kind") == "ContinueStmt"
+
+    def _guarded(self, children):
+        """Loop body: `if (c) continue; REST` with symbolic c is executed as the mergeable region
+        `if (!c) { REST }` (same semantics: the compound is the loop body itself)."""
+        for k, c in enumerate(children):
+            if self._is_continue_guard(c):
+                cv = self.val(c["inner"][0])
+                if is_sym(cv):
+                    cv = z3.simplify(cv if z3.is_bool(cv) else cv != 0)
+                    if z3.is_true(cv):
+                        cv = True
+                    elif z3.is_false(cv):
+                        cv = False
+                if not is_sym(cv):
+                    if cv:
+                        raise ContinueEx()
+                    continue
+                rest = children[k + 1:]
+
+                def run():
+                    if self.fork(cv):
+                        return None
+                    try:
+                        self._guarded(rest)
+                    except ContinueEx:
+                        pass
+                    return None
+                self.region(run, c)
+                return
+            self.stmt(c)
 
     # ------------------------------------------------------------------ expressions
     def val(self, n):
@@ -1231,9 +1278,11 @@ class Interp:
         lam_s = self.toreal(lam)
         # libstdc++: mean 0 returns 0 (the documented precondition mean > 0 is a separate obligation)
         self.assume(z3.And(p >= 0, z3.Implies(lam_s <= 0, p == 0)))
-        self.n_safety_checked += 1
-        r, m = self.check(z3.Not(lam_s > 0))
-        pre = "holds" if r == "unsat" else ("violated" if r == "sat" else "unknown")
+        pre, m = "unchecked", None
+        if self.check_lib_pre:
+            self.n_safety_checked += 1
+            r, m = self.check(z3.Not(lam_s > 0))
+            pre = "holds" if r == "unsat" else ("violated" if r == "sat" else "unknown")
         self.events.append(("poisson", lam, p, pre, self.where(node), m))
         return p
 
